@@ -20,6 +20,7 @@ EXPLANATION = (
     ' (R3/R4, field-sensitive) a bound established on a header or table field discharges only uses of that same field; a comparison of one field never discharges another.'
     ' (R7) record codecs agree field by field: each writer (header, const entry, symbol, dictionary, type entry, every instruction variant) writes its fields in the order and width the reader that rebuilds the record reads them, and the compile-side and load-side writers of one record agree.'
     " (R8) the compiler's align_up(len, align) is the smallest multiple of align >= len over the finite table of alignments and lengths, and the offset recorded in the constant entry is the padded offset."
+    ' (R9) length prefixes measure the bytes they precede: a computed `write_uN(E)` directly followed by raw bytes B has E = len() of that byte sequence (UTF-8 length for strings).'
 )
 
 READ_SRC = re.compile(r"ReadBytesExt::read_u(8|16|32|64|128)$|ReadBytesExt::read_i(8|16|32|64)$|::from_le_bytes$|::from_le$|ReadBytesExt::read_f(32|64)$")
@@ -357,9 +358,10 @@ def run(F, rep, tier):
                 rep.check(total(hw) == hsize, "C07-R2", "header:size-constant", "ByteCodeHeader::write_to writes %d bytes but HEADER_SIZE = %s" % (total(hw), hsize), sample={"written": total(hw), "HEADER_SIZE": hsize})
     run_r5(F, rep, crate, cg)
     run_r6(F, rep, crate, tier)
-    from rules.c07_fields import run_r7, run_r8
+    from rules.c07_fields import run_r7, run_r8, run_r9
     run_r7(F, rep, crate)
     run_r8(F, rep, crate, tier)
+    run_r9(F, rep, crate)
 
 
 def _int_eval(e):
